@@ -20,11 +20,16 @@ EXPLANATION = (
     "list (p= of choice(len(arms), ...)) is maintained by add_arm/remove_arm. (R8.3) every policy object of the "
     "graph references the one list object MAB.arms; that list is mutated only by MAB.add_arm / MAB.remove_arm and "
     ".arms is rebound only in constructors. (R8.4) every dictionary returned by predict_expectations has arm "
-    "labels as keys and every value returned by predict is an arm label. (R8.5) the single-vs-list unwrapping of "
-    "each predict / predict_expectations / _parallel_predict / _vectorized_predict_context matches an accepted "
-    "idiom over {no contexts, one row, many rows}, and every _predict_contexts assigns predictions[index] on "
-    "every path of its row loop. Decides structure of bookkeeping and result construction; insertion order of "
-    "dictionaries as a run-time fact is relied upon.")
+    "labels as keys and every value returned by predict is an arm label. (R8.5) a cardinality interpreter "
+    "(rules/cardinality.py: abstract interpretation over kinds and lengths - dictionary keyed by the arms, list of "
+    "m, array (m, k), scalar - per scenario no contexts / one row / m rows, scenario-determined tests decided, all "
+    "others explored on both sides) shows that each predict / predict_expectations of the context-free policies, "
+    "_parallel_predict and _vectorized_predict_context returns one dictionary / arm for no contexts or one row "
+    "and a list with one per row for m rows, whatever the spelling of branches, loops and temporaries; every "
+    "_predict_contexts writes the row's result exactly once on every path of its row loop (pre-sized list written "
+    "at [index], or list appended to). (R8.1 uses must-not-contain facts of the interpreter: after "
+    "arms.remove(x) a guard `x in <that list>` is false.) Decides structure of bookkeeping and result "
+    "construction; insertion order of dictionaries as a run-time fact is relied upon.")
 ASSUMPTIONS = ["dict preserves insertion order; MAB validation keeps arms duplicate free", "externals table",
                "CPython ast"]
 
